@@ -9,6 +9,7 @@ import (
 	"time"
 
 	"github.com/douban/gobeansdb/cmem"
+	"github.com/douban/gobeansdb/vhook"
 )
 
 const (
@@ -76,6 +77,7 @@ func (ds *dataStore) AppendRecord(rec *Record) (pos Position, err error) {
 		ds.newHead++
 		logger.Infof("rotate to %d, size %d, new rec size %d", ds.newHead, currOffset, size)
 		currOffset = 0
+		vhook.PointI("data.bgflush.spawn", int64(ds.bucketID), int64(ds.newHead-1))
 		go ds.flush(ds.newHead-1, true)
 	}
 	pos.ChunkID = ds.newHead
@@ -97,6 +99,8 @@ func (ds *dataStore) AppendRecord(rec *Record) (pos Position, err error) {
 }
 
 func (ds *dataStore) flush(chunk int, force bool) error {
+	vhook.PointI("data.flush.enter", int64(ds.bucketID), int64(chunk))
+	defer vhook.PointI("data.flush.exit", int64(ds.bucketID), int64(chunk))
 	if ds.wbufSize == 0 {
 		return nil
 	}
@@ -126,6 +130,7 @@ func (ds *dataStore) flush(chunk int, force bool) error {
 		return err
 	}
 
+	vhook.PointI("data.flush.beforeWrite", int64(ds.bucketID), int64(chunk))
 	filessize := ds.chunks[chunk].getDiskFileSize()
 	if w.offset != filessize {
 		logger.Fatalf("wrong data file size, exp %d, got %d, %s, dataChunk %#v",
@@ -207,6 +212,7 @@ func GetStreamWriter(path string, isappend bool) (*DataStreamWriter, error) {
 		}
 	}
 	wbuf := bufio.NewWriterSize(fd, Conf.BufIOCap)
+	wbuf = vhookWrapWriter(wbuf, fd, path)
 	w := &DataStreamWriter{path: path, fd: fd, wbuf: wbuf, offset: offset}
 	return w, nil
 }
